@@ -1,0 +1,275 @@
+//! Verification hooks. Only compiled with the cargo feature `verif_hooks`.
+//!
+//! When the environment variable `PAROL_LS_VERIF` is set, `main` hands control to [run]: a
+//! JSON-lines command interpreter on stdin/stdout that drives a real [Server] over an in-memory
+//! connection, one command per line, one reply per line. Background analyses are started through
+//! [gate::spawn]; with the gate closed they are queued and executed only on request, so that a
+//! harness decides when each of them runs and publishes.
+
+use std::cell::RefCell;
+use std::io::{BufRead, Write};
+use std::sync::Arc;
+
+use lsp_server::{Connection, Message, Notification, Request, RequestId};
+use lsp_types::request::{
+    CodeActionRequest, DocumentSymbolRequest, Formatting, GotoDefinition, HoverRequest,
+    PrepareRenameRequest, Rename, Request as _,
+};
+use serde_json::{Value, json};
+
+use crate::config::ConfigProperties;
+use crate::handler::RequestHandler;
+use crate::server::Server;
+
+/// Replacement for `std::thread` inside `Server::check_grammar`
+pub(crate) mod gate {
+    use std::sync::Mutex;
+    use std::sync::atomic::{AtomicBool, Ordering};
+    use std::thread::JoinHandle;
+
+    type Task = Box<dyn FnOnce() + Send + 'static>;
+
+    pub(crate) static CLOSED: AtomicBool = AtomicBool::new(false);
+    pub(crate) static QUEUE: Mutex<Vec<Option<Task>>> = Mutex::new(Vec::new());
+    pub(crate) static HANDLES: Mutex<Vec<JoinHandle<()>>> = Mutex::new(Vec::new());
+
+    /// Queues the task when the gate is closed, otherwise starts a real thread.
+    pub(crate) fn spawn<F>(f: F)
+    where
+        F: FnOnce() + Send + 'static,
+    {
+        if CLOSED.load(Ordering::SeqCst) {
+            QUEUE.lock().unwrap().push(Some(Box::new(f)));
+        } else {
+            HANDLES.lock().unwrap().push(std::thread::spawn(f));
+        }
+    }
+
+    /// Indices of the queued tasks that have not run yet
+    pub(crate) fn pending() -> Vec<usize> {
+        QUEUE
+            .lock()
+            .unwrap()
+            .iter()
+            .enumerate()
+            .filter(|(_, t)| t.is_some())
+            .map(|(i, _)| i)
+            .collect()
+    }
+
+    /// Runs the queued task with the given index on the calling thread
+    pub(crate) fn run(index: usize) -> bool {
+        let task = QUEUE.lock().unwrap().get_mut(index).and_then(|t| t.take());
+        match task {
+            Some(t) => {
+                t();
+                true
+            }
+            None => false,
+        }
+    }
+
+    pub(crate) fn reset() {
+        QUEUE.lock().unwrap().clear();
+    }
+
+    pub(crate) fn join_all() {
+        let hs: Vec<JoinHandle<()>> = HANDLES.lock().unwrap().drain(..).collect();
+        for h in hs {
+            let _ = h.join();
+        }
+    }
+}
+
+/// True if the interpreter was requested
+pub(crate) fn requested() -> bool {
+    std::env::var_os("PAROL_LS_VERIF").is_some()
+}
+
+thread_local! {
+    static LAST_PANIC: RefCell<Option<String>> = const { RefCell::new(None) };
+}
+
+fn catch<T>(f: impl FnOnce() -> T) -> Result<T, String> {
+    std::panic::catch_unwind(std::panic::AssertUnwindSafe(f)).map_err(|_| {
+        LAST_PANIC
+            .with(|p| p.borrow_mut().take())
+            .unwrap_or_else(|| "panic".to_string())
+    })
+}
+
+struct Session {
+    server: RefCell<Server>,
+    server_side: Arc<Connection>,
+    client_side: Connection,
+}
+
+impl Session {
+    fn new(max_k: usize) -> Self {
+        let (server_side, client_side) = Connection::memory();
+        Session {
+            server: RefCell::new(Server::new(max_k)),
+            server_side: Arc::new(server_side),
+            client_side,
+        }
+    }
+
+    fn messages(&self) -> Vec<Value> {
+        let mut out = Vec::new();
+        while let Ok(m) = self.client_side.receiver.try_recv() {
+            out.push(match m {
+                Message::Notification(n) => json!({"notification": n.method, "params": n.params}),
+                Message::Request(r) => json!({"request": r.method, "params": r.params}),
+                Message::Response(r) => json!({"response": format!("{:?}", r.response_result)}),
+            });
+        }
+        out
+    }
+
+    fn request(&self, method: &str, params: Value) -> Result<Value, String> {
+        let req = Request {
+            id: RequestId::from(1),
+            method: method.to_string(),
+            params,
+        };
+        macro_rules! handle {
+            ($t:ty) => {{
+                let (id, params) = req
+                    .extract::<<$t as lsp_types::request::Request>::Params>(<$t>::METHOD)
+                    .map_err(|e| format!("bad params: {e:?}"))?;
+                let resp = <$t>::handle(&mut self.server.borrow_mut(), id, params);
+                resp.response_result.map_err(|e| format!("{e:?}"))
+            }};
+        }
+        match method {
+            GotoDefinition::METHOD => handle!(GotoDefinition),
+            HoverRequest::METHOD => handle!(HoverRequest),
+            DocumentSymbolRequest::METHOD => handle!(DocumentSymbolRequest),
+            PrepareRenameRequest::METHOD => handle!(PrepareRenameRequest),
+            Rename::METHOD => handle!(Rename),
+            Formatting::METHOD => handle!(Formatting),
+            CodeActionRequest::METHOD => handle!(CodeActionRequest),
+            other => Err(format!("unhandled request {other}")),
+        }
+    }
+}
+
+/// The command interpreter
+pub(crate) fn run() -> Result<(), Box<dyn std::error::Error>> {
+    std::panic::set_hook(Box::new(|info| {
+        let loc = info
+            .location()
+            .map(|l| format!("{}:{}", l.file(), l.line()))
+            .unwrap_or_default();
+        let msg = if let Some(s) = info.payload().downcast_ref::<&str>() {
+            s.to_string()
+        } else if let Some(s) = info.payload().downcast_ref::<String>() {
+            s.clone()
+        } else {
+            "<non-string panic>".to_string()
+        };
+        LAST_PANIC.with(|p| *p.borrow_mut() = Some(format!("{msg} @ {loc}")));
+    }));
+    let stdin = std::io::stdin();
+    let stdout = std::io::stdout();
+    let mut session = Session::new(3);
+    for line in stdin.lock().lines() {
+        let line = line?;
+        if line.trim().is_empty() {
+            continue;
+        }
+        let cmd: Value = match serde_json::from_str(&line) {
+            Ok(v) => v,
+            Err(e) => {
+                writeln!(stdout.lock(), "{}", json!({"error": format!("bad command: {e}")}))?;
+                continue;
+            }
+        };
+        let reply = match cmd["cmd"].as_str().unwrap_or("") {
+            "new" => {
+                gate::reset();
+                session = Session::new(cmd["max_k"].as_u64().unwrap_or(3) as usize);
+                json!({"ok": true})
+            }
+            "gate" => {
+                gate::CLOSED.store(
+                    cmd["closed"].as_bool().unwrap_or(true),
+                    std::sync::atomic::Ordering::SeqCst,
+                );
+                json!({"ok": true})
+            }
+            "config" => {
+                let props: ConfigProperties =
+                    serde_json::from_value(cmd["props"].clone()).unwrap_or_default();
+                match catch(|| session.server.borrow_mut().update_configuration(&props)) {
+                    Ok(Ok(())) => json!({"ok": true}),
+                    Ok(Err(e)) => json!({"err": e.to_string()}),
+                    Err(p) => json!({"panic": p}),
+                }
+            }
+            "notify" => {
+                let not = Notification {
+                    method: cmd["method"].as_str().unwrap_or("").to_string(),
+                    params: cmd["params"].clone(),
+                };
+                let conn = session.server_side.clone();
+                match catch(|| crate::process_notification(not, conn, &session.server)) {
+                    Ok(Ok(())) => json!({"ok": true}),
+                    Ok(Err(e)) => json!({"err": e.to_string()}),
+                    Err(p) => json!({"panic": p}),
+                }
+            }
+            "request" => {
+                let method = cmd["method"].as_str().unwrap_or("").to_string();
+                match catch(|| session.request(&method, cmd["params"].clone())) {
+                    Ok(Ok(v)) => json!({"result": v}),
+                    Ok(Err(e)) => json!({"err": e}),
+                    Err(p) => {
+                        // a panic inside a handler may leave the RefCell borrowed
+                        json!({"panic": p})
+                    }
+                }
+            }
+            "messages" => json!({"messages": session.messages()}),
+            "pending" => json!({"pending": gate::pending()}),
+            "run" => {
+                let i = cmd["index"].as_u64().unwrap_or(0) as usize;
+                match catch(|| gate::run(i)) {
+                    Ok(ran) => json!({"ran": ran}),
+                    Err(p) => json!({"panic": p}),
+                }
+            }
+            "join" => {
+                gate::join_all();
+                json!({"ok": true})
+            }
+            "parse" => {
+                let text = cmd["text"].as_str().unwrap_or("").to_string();
+                match catch(|| {
+                    let mut g = crate::parol_ls_grammar::ParolLsGrammar::default();
+                    crate::parol_ls_parser::parse(&text, "verif.par", &mut g).is_ok()
+                }) {
+                    Ok(ok) => json!({"ok": ok}),
+                    Err(p) => json!({"panic": p}),
+                }
+            }
+            "pos_to_offset" => {
+                let text = cmd["text"].as_str().unwrap_or("").to_string();
+                let pos = lsp_types::Position {
+                    line: cmd["line"].as_u64().unwrap_or(0) as u32,
+                    character: cmd["character"].as_u64().unwrap_or(0) as u32,
+                };
+                match catch(|| crate::utils::pos_to_offset(&text, pos)) {
+                    Ok(o) => json!({"offset": o}),
+                    Err(p) => json!({"panic": p}),
+                }
+            }
+            "quit" => break,
+            other => json!({"error": format!("unknown command {other}")}),
+        };
+        let mut out = stdout.lock();
+        writeln!(out, "{reply}")?;
+        out.flush()?;
+    }
+    Ok(())
+}
